@@ -120,4 +120,32 @@ theorem getDb_tableRef (s : State) (i r : Nat) : (s.tableRef i).1.getDb r = s.ge
       split <;> rfl
 
 
+theorem live_some_raw {db : Db} {now : Int} {k : Bytes} {e : Entry} (h : db.live now k = some e) :
+    db.raw k = some e ∧ e.expired now = false := by
+  unfold Db.live at h
+  split at h
+  · split at h
+    · cases h
+    · rename_i h1 h2
+      cases h
+      exact ⟨h1, by simpa using h2⟩
+  · cases h
+
+
+/-- one command of one connection, with the clock it saw -/
+structure Ev where
+  c : Ctx
+  conn : Nat
+  ref : Nat
+  inMulti : Bool
+  cmd : Cmd
+
+
+/-- any history: commands of any connections on any databases, in the order the store lock admits them
+    (the body of somebody's EXEC is such a run of commands too) -/
+def runEvents : State → List Ev → State
+  | s, [] => s
+  | s, e :: r => runEvents (runCmd e.c s e.conn e.ref e.inMulti e.cmd).st r
+
+
 end RedisEmu
